@@ -653,7 +653,13 @@ Varable failures: {var_failed}
 
     def _add2Varlist(self, varkeys):
         varliststr = getattr(self, 'VAR-LIST', '')
-        keys = [k for k in varliststr.split() if k in self.variables]
+        if len(varliststr) % 16 == 0:
+            # fixed width: a 16-character name runs into the next one
+            listed = [varliststr[i:i + 16].strip()
+                      for i in range(0, len(varliststr), 16)]
+        else:
+            listed = varliststr.split()
+        keys = [k for k in listed if k in self.variables]
         newkeys = set(varkeys).difference(keys + ['ETFLAG', 'TFLAG'])
         for varkey in varkeys:
             if varkey in newkeys:
